@@ -585,6 +585,11 @@ def _evaluate_case(case, rc, res, err, margin=None):
             else:
                 S["lu"] = {"ok": False, "op": i}
             S["permr"] = r["permr"]
+            # a factorization in user-workspace mode must have taken its memory from the work[] it was given: afterwards the
+            # user stack of p?memory.c (seen through ?user_malloc(0, HEAD)) has to lie inside THIS session's buffer
+            if o["lwork"] > 0 and 0 <= info <= n + 1 and r.get("S") and not r["S"]["head"].startswith("slot:%d:" % o["slot"]):
+                fails.append(Fail(i, "%s with user workspace of session %d: the library's user stack is at %s, i.e. in another buffer" %
+                                  (k, o["slot"], r["S"]["head"]), {"kind": "refact_user_stack_stale_array"}))
             if r.get("S") and (r["S"]["exp"] != 0 or r["S"]["ndim"] != n):
                 fails.append(Fail(i, "after %s: expander table allocated=%d (expected 0), ndim=%d (expected %d)" % (k, r["S"]["exp"], r["S"]["ndim"], n),
                                   {"kind": "state_after_factor"}))
@@ -618,7 +623,8 @@ def _evaluate_case(case, rc, res, err, margin=None):
                 if q < len(res) and ops[q].get("slot") == o["slot"] and ("H" in res[q] or "HA" in res[q]):
                     prev = res[q].get("H") or res[q].get("HA"); break
             if prev is not None:
-                bad = [h for h in HASH_KEYS if prev.get(h) != r.get("H", {}).get(h)]
+                # R, C and equed are OUTPUT arguments of p?gssvx for fact != FACTORED: a query may write them
+                bad = [h for h in HASH_KEYS if h != "RC" and prev.get(h) != r.get("H", {}).get(h)]
                 if bad:
                     fails.append(Fail(i, "lwork=-1 query ('no other side effects') modified: %s%s" %
                                       (",".join(bad), " (perm_r is now %s)" % r["permr"] if "permr" in bad else ""),
@@ -728,9 +734,9 @@ def gen_c08_case(rng, length, nmax, precs="sdcz", main_only=False):
         elif c < 0.92:
             if state["lu_ok"]: ops.append(dict(op="qspace", slot=0, nprocs=rng.choice([1, 2]), panel=panel))
         elif not main_only:
-            # lwork=-1 query; the caller restores perm_r afterwards (the restore is part of the sequence, the clobbering is reported)
+            # lwork=-1 query: "no other side effects", the sequence simply goes on with what the caller holds
             ops.append(dict(op="query", slot=0, api=rng.choice([0, 1]), refact=rng.choice([0, 1]), nprocs=rng.choice([1, 2]), relax=relax, panel=panel,
-                            restore=True))
+                            restore=False))
     return {"ienv": ienv, "slots": [{"sid": 0, "prec": prec, "pat": pat}], "ops": ops,
             "meta": {"prec": prec, "n": n, "kind": pat["kind"], "user": user}}
 
